@@ -7,6 +7,7 @@
   specification by the correspondence streams (see DESIGN.md §8 C01, "partial").
 -/
 import CSD.Lemmas.PFCMeta
+import CSD.Lemmas.HashBuild
 
 namespace CSD.Props.C01
 open CSD CSD.PFC
@@ -51,6 +52,47 @@ theorem pfc_extract_then_locate (b : Nat) (S : List Str) (hv : validDict S = tru
   · rw [extract_build b S hn i h1 h2, List.getElem?_eq_getElem hlt]
   · rw [locate_build b S _ hne hn (hn _ (List.getElem_mem _)) hsort, Spec.locate_getElem hsort _ hlt]
     congr 1; omega
+
+/-! ### The hash kinds (model of `Hash/HashDAC.cpp` + `StringDictionaryHASHRPDAC`, exact: table size,
+probe sequence, insertion order and rank-based IDs; tied to the code by exact ID comparison) -/
+
+/-- Hash dictionary, member → ID → member: every one of the `n` distinct strings gets an ID in
+`[1,n]` and `extract` of that ID gives it back — whatever the collisions. `hacc` says the table
+size passed `nearest_prime`'s own trial division (the C++ loop returns only such sizes). -/
+theorem hash_locate_then_extract (tsize0 : Nat) (S : List Str) (hnd : S.Nodup) (hcap : S.length ≤ tsize0)
+    (hacc : Hash.accepted (Hash.build tsize0 S).tsize = true) (s : Str) (hs : s ∈ S) :
+    1 ≤ Hash.locate (Hash.build tsize0 S) s ∧ Hash.locate (Hash.build tsize0 S) s ≤ S.length ∧
+      Hash.extract (Hash.build tsize0 S) (Hash.locate (Hash.build tsize0 S) s) = some s := by
+  have g := Hash.goodDict_build tsize0 S hnd hcap hacc
+  obtain ⟨k, hk⟩ := List.mem_iff_getElem?.mp hs
+  have hr := Hash.locate_range g k s hk
+  exact ⟨hr.1, hr.2, Hash.extract_locate g k s hk⟩
+
+/-- Hash dictionary, ID → member → ID: every ID in `[1,n]` extracts a member whose `locate` is that ID;
+with the theorem above, IDs `1..n` are a bijection onto `S`. -/
+theorem hash_extract_then_locate (tsize0 : Nat) (S : List Str) (hnd : S.Nodup) (hcap : S.length ≤ tsize0)
+    (hacc : Hash.accepted (Hash.build tsize0 S).tsize = true) (i : Nat) (h1 : 1 ≤ i) (h2 : i ≤ S.length) :
+    ∃ s, s ∈ S ∧ Hash.extract (Hash.build tsize0 S) i = some s ∧ Hash.locate (Hash.build tsize0 S) s = i := by
+  have g := Hash.goodDict_build tsize0 S hnd hcap hacc
+  obtain ⟨w, hw, hm, hl⟩ := Hash.locate_extract g i h1 h2
+  exact ⟨w, hm, hw, hl⟩
+
+/-- Distinct members never share an ID. -/
+theorem hash_ids_injective (tsize0 : Nat) (S : List Str) (hnd : S.Nodup) (hcap : S.length ≤ tsize0)
+    (hacc : Hash.accepted (Hash.build tsize0 S).tsize = true) (s s' : Str) (hs : s ∈ S) (hs' : s' ∈ S)
+    (h : Hash.locate (Hash.build tsize0 S) s = Hash.locate (Hash.build tsize0 S) s') : s = s' :=
+  Hash.locate_injective (Hash.goodDict_build tsize0 S hnd hcap hacc) s s' hs hs' h
+
+/-- `nearest_prime` hands the table a prime size (or 1), which is what makes the probe sequence
+visit every cell; within the model's search bound the size is accepted or the bound was hit. -/
+theorem hash_table_size_prime (tsize0 : Nat) (S : List Str)
+    (hacc : Hash.accepted (Hash.build tsize0 S).tsize = true) :
+    (Hash.build tsize0 S).tsize = 1 ∨ Hash.IsPrime (Hash.build tsize0 S).tsize :=
+  Hash.accepted_prime_or_one hacc
+
+/-- Non-vacuity of the hash hypotheses: three strings in a table requested for 3 (size 3 is accepted). -/
+example : Hash.accepted (Hash.build 3 [[0x61], [0x62], [0x63]]).tsize = true ∧
+    ([[0x61], [0x62], [0x63]] : List Str).Nodup := by decide +kernel
 
 /-- Non-vacuity: a concrete valid dictionary (the hypotheses are satisfiable), and
 what the theorems say about it. -/
